@@ -49,6 +49,7 @@ func propWith(t *rapid.T, shape string) {
 		t.Fatalf("bootstrap: %v", err)
 	}
 	nontrivial, totalBlocks, withCheaters, stopped := 0, 0, 0, false
+	shrinks := 0 // a block lists fewer cheaters than the block before it: its Atropos does not descend from the previous one's view
 	beyondThird := false
 	// the runs: every epoch of the scenario and, when epochs are switched by Reset, sometimes a second run of the
 	// same epoch after a Reset to the SAME epoch number with other weights for the same validators (corrected
@@ -175,6 +176,9 @@ func propWith(t *rapid.T, shape string) {
 					ref.Epoch, bi, b.Frame, ai, b.Cheaters, want, order, scen.DescribeScenario(sc))
 			}
 			totalBlocks++
+			if bi > 0 && len(b.Cheaters) < len(blocks[bi-1].Cheaters) {
+				shrinks++
+			}
 			if seenCnt > 0 {
 				withCheaters++
 			}
@@ -218,6 +222,9 @@ func propWith(t *rapid.T, shape string) {
 	}
 	if withCheaters > 0 {
 		classes = append(classes, "block_with_cheaters")
+	}
+	if shrinks > 0 {
+		classes = append(classes, "cheater_list_shrinks_between_consecutive_blocks")
 	}
 	if sh := sc.Epochs[0].Info.Shape; sh != "" {
 		classes = append(classes, "shape_"+sh)
